@@ -186,6 +186,9 @@ pub struct PlanA {
     /// library (measurements and candidate prefixes); empty = aligned
     #[serde(default)]
     pub bit_offsets: Vec<u8>,
+    /// Poplar1: explicit storage of chosen bit strings: (bits, offset, junk stored before them)
+    #[serde(default)]
+    pub storage: Vec<(String, u8, String)>,
 }
 
 #[derive(Clone)]
@@ -414,8 +417,11 @@ impl<'p, 'c, 'cc, V: SimVdaf<VK>, A: Adapter<V>, const VK: usize> World<'p, 'c, 
                 continue;
             };
             use prio::codec::Decode;
+            // with storage directives the aggregators are handed the object AS BUILT (a collector
+            // co-located with the aggregator: no decode in between, which would re-align the bits)
+            let as_built = !plan.storage.is_empty() || !plan.bit_offsets.is_empty();
             match mon_decode(ctx, "AggregationParam", &b, 0, |x| V::AggregationParam::get_decoded(x), |v| v.get_encoded(), |v| v.encoded_len()) {
-                Some(d) => aps.push(d),
+                Some(d) => aps.push(if as_built { built } else { d }),
                 None => {
                     ctx.fail(Violation::new(&format!("{hid}.agg_param_codec"), "agg_param|decode", format!("an admissible aggregation parameter ({} prefixes of length {}) does not decode from its own encoding", s.len(), s.first().map(|x| x.len()).unwrap_or(0))));
                     aps.push(built);
